@@ -52,8 +52,10 @@ typedef struct {
 void run_history(const block_t *b, const hist_t *h, unsigned monitors, hres_t *res);
 /* recoverability oracle on the generator form: are all k sources determined by the received set? */
 int  oracle_solvable(const block_t *b, const uint8_t *received /* n flags */);
-/* when set, every session first offers the instance a parameter set the documented limits exclude (refused with an error status)
- * and only then the real one: a refused configuration must leave the instance usable */
+/* when set, every session is preceded by one or two throw-away instances that are offered a parameter set the documented limits
+ * exclude, are refused, and are released at once (a refusal is OF_STATUS_FATAL_ERROR: the instance must not be used further) */
 extern int g_session_preprobe;
+extern unsigned g_session_verbosity;
+extern int g_force_closure_monitor;
 extern const char *g_prop;      /* property whose monitor is on the verdict path */
 #endif
